@@ -52,6 +52,7 @@ type run struct {
 	holders []*holder
 	conc    bool
 	hung    bool
+	force   bool // readers of a blocked list query before the hand-in
 	nauto   int
 	fresh   map[string]string // writer -> content hash when it was built
 }
@@ -225,6 +226,39 @@ func (r *run) exec(sched []drv.Step) {
 				after = append(after, segs[n-1][1:]...)
 				segs[n-1] = segs[n-1][:1]
 			}
+			// store-style components: readers named by the Put step's "blocked" list call their out-point BEFORE the hand-in
+			// (they block inside the component) and are answered by it; their results are logged after the call returned, in
+			// the listed order.  A reader that had not reached the component yet when the hand-in happened is simply an
+			// ordinary reader after it: the recorded events are the same, so the timing below decides nothing.
+			type blockedRes struct {
+				val any
+				key string
+				ok  bool
+				err error
+			}
+			var blocked []drv.Step
+			var bres []chan blockedRes
+			if !fan {
+				if l, ok := st["blocked"].([]any); ok {
+					for _, x := range l {
+						if m, ok := x.(map[string]any); ok && drv.Str(m["to"]) != "" && r.holder(drv.Str(m["to"])) == nil {
+							blocked = append(blocked, drv.Step(m))
+						}
+					}
+				}
+				r.force = true
+				for _, b := range blocked {
+					ch := make(chan blockedRes, 1)
+					bres = append(bres, ch)
+					go func() {
+						val, key, ok, err := r.get(drv.Str(b["p"]), w.name, drv.Num(b["arg"]))
+						ch <- blockedRes{val, key, ok, err}
+					}()
+				}
+				if len(blocked) > 0 {
+					time.Sleep(40 * time.Millisecond)
+				}
+			}
 			ncb := 0
 			var mu sync.Mutex
 			err := r.put(p, w.name, func(point, key string, val any) {
@@ -249,6 +283,21 @@ func (r *run) exec(sched []drv.Step) {
 				}
 			})
 			r.tr.Emit(drv.Step{"ev": "PutRet", "err": err != nil})
+			for i, b := range blocked {
+				x := <-bres[i]
+				if err != nil || !x.ok || r.hung {
+					continue // the hand-in was refused: nobody was to be answered
+				}
+				if errors.Is(x.err, context.DeadlineExceeded) {
+					r.tr.Emit(drv.Step{"ev": "Hang", "p": drv.Str(b["p"]), "err": x.err.Error()})
+					r.hung = true
+					continue
+				} else if x.err != nil {
+					continue
+				}
+				r.emitGet(drv.Str(b["p"]), x.key, drv.Str(b["to"]), x.val)
+			}
+			r.force = false
 			for _, o := range after {
 				r.op(o)
 			}
